@@ -42,13 +42,13 @@ func runC07(p *Prog, r *Report) {
 	cn := q.Fn(R, "protocol/surveyor", "survey", "cancel")
 	if cn.OK() {
 		once := cn.Ev("call", "sync.(*Once).Do")
-		r.Check(len(once) == 1 && len(once[0].Guard) == 0, R, "runs-once", once.Pos(p), "body inside once.Do", "cancel is not idempotent (once.Do)")
+		r.Check(len(once) == 1 && once[0].Unconditional(), R, "runs-once", once.Pos(p), "body inside once.Do", "cancel is not idempotent (once.Do)")
 		cl := cn.Closure(R, 0)
 		if cl.OK() {
 			cs := cl.Ev("store", "recv.ctx.surv").Arg(0, "nil")
 			r.Check(len(cs) == 1 && cs.AllGuarded("recv.ctx.surv == recv") && cs.AllHeld(survMu), R, "clears-current-only-if-own", cs.Pos(p), "ctx.surv = nil only if it is this survey, under the lock", "cancel clears the context's current survey although a newer survey may have replaced it (or does not clear it at all): Recv after expiry keeps waiting on / reading the dead survey: "+guardsOf(cs))
 			del := cl.Ev("delete", "delete").Arg(0, "recv.sock.surveys").Arg(1, "recv.id")
-			r.Check(len(del) == 1 && len(del[0].Guard) == 0 && del.AllHeld(survMu), R, "unregisters-id", del.Pos(p), "delete(surveys, id) under the lock", "cancel does not unregister the survey id under the lock")
+			r.Check(len(del) == 1 && del[0].Unconditional() && del.AllHeld(survMu), R, "unregisters-id", del.Pos(p), "delete(surveys, id) under the lock", "cancel does not unregister the survey id under the lock")
 			cq := cl.Ev("close", "close").Arg(0, "recv.recvQ")
 			r.Check(len(cq) == 1 && cq.DominatedBy(del), R, "close-after-unregister", cq.Pos(p), "queue closed after the id was unregistered", "the queue is closed before the survey is unregistered")
 			dr := cl.Ev("recv", "recv.recvQ")
